@@ -1,21 +1,41 @@
 #!/usr/bin/env python3
-"""Apply a seeded change to /repo, run the given checks (quick tier), undo the change.
-usage: seedtest.py <patch.diff> <Cxx> [<Cyy> ...]   (never commits anything in /repo)"""
-import subprocess, sys, os
+"""Run checks against a seeded change WITHOUT touching /repo: a scratch git worktree of /repo's
+HEAD gets the patch, the checks run with VERIF_REPO pointing at it and VERIF_OUT at a scratch
+directory (so evidence/ and replay/ of /verif are not overwritten); everything is removed afterwards.
+usage: seedtest.py <patch.diff> <Cxx> [<Cyy> ...]      (the registered way - git -C /repo apply ... - is equivalent)"""
+import subprocess, sys, os, tempfile, shutil, json
 patch = os.path.abspath(sys.argv[1])
 checks = sys.argv[2:]
-assert subprocess.run(["git", "-C", "/repo", "status", "--porcelain", "--untracked-files=no"], capture_output=True, text=True).stdout.strip() == "", "repo not clean"
-r = subprocess.run(["git", "-C", "/repo", "apply", patch])
-assert r.returncode == 0, "patch does not apply"
+wt = tempfile.mkdtemp(prefix="seedwt.", dir="/var/tmp")
+out = tempfile.mkdtemp(prefix="seedout.", dir="/var/tmp")
+os.rmdir(wt)
+subprocess.run(["git", "-C", "/repo", "worktree", "add", "-q", "--detach", wt, "HEAD"], check=True)
 res = {}
 try:
-    for c in checks:
-        p = subprocess.run(["python3", "/verif/tools/check.py", c, "--tier", "quick"], capture_output=True, text=True, cwd="/verif")
-        lines = [l for l in p.stdout.split("\n") if l.startswith("VIOLATION") or l.startswith(c + " ")]
-        res[c] = (p.returncode, lines[:3] + lines[-1:])
+    r = subprocess.run(["git", "-C", wt, "apply", patch])
+    assert r.returncode == 0, "patch does not apply"
+    env = dict(os.environ, VERIF_REPO=wt, VERIF_OUT=out)
+    procs = {c: subprocess.Popen(["python3", "/verif/tools/check.py", c, "--tier", "quick"], stdout=subprocess.PIPE,
+                                 stderr=subprocess.STDOUT, text=True, cwd="/verif", env=env) for c in checks}
+    for c, p in procs.items():
+        o, _ = p.communicate()
+        lines = [l for l in o.split("\n") if l.startswith("VIOLATION") or l.startswith(c + " ")]
+        what = ""
+        for l in lines:
+            if l.startswith("VIOLATION"):
+                try:
+                    rp = json.load(open(l.split("replay=")[1].split()[0]))
+                    what = (rp.get("what", "") + " | " + str(rp.get("command", "")))[:300]
+                except Exception:
+                    pass
+                break
+        res[c] = (p.returncode, lines[:2] + lines[-1:], what)
 finally:
-    subprocess.run(["git", "-C", "/repo", "checkout", "--", "."])
-for c, (rc, lines) in res.items():
+    subprocess.run(["git", "-C", "/repo", "worktree", "remove", "--force", wt])
+    shutil.rmtree(out, ignore_errors=True)
+for c, (rc, lines, what) in res.items():
     print("%s exit=%d %s" % (c, rc, "CAUGHT" if rc == 1 else "missed"))
     for l in lines:
         print("    " + l[:200])
+    if what:
+        print("    first: " + what)
